@@ -44,6 +44,7 @@ SHAPE_USERS = {
     "dead_letters": ("C13", "C17"),
     "retryable": ("C10",),
     "forwarders": ("C16",),
+    "features": ("C18",),
 }
 
 
